@@ -121,6 +121,13 @@ class CommonSubexpressionEliminationPass(ir.passes.InPlacePass):
                 tuple(id(input) for input in node.inputs),
                 tuple(sorted(attributes.items())),
             )
+            try:
+                hash(node_info)
+            except TypeError:
+                # An attribute value that cannot be compared by value
+                # (e.g. TYPE_PROTO, TENSORS): leave the node alone.
+                logger.debug("Skipping %s: an attribute value is not hashable", node)
+                continue
             # Check if the node is a common subexpression.
             if node_info in existing_node_info_to_the_node:
                 # If it is, this node has an existing node with the same
